@@ -205,10 +205,14 @@ func (p *provider) Stop(ctx context.Context) error {
 }
 
 func (p *provider) filter(obj any) bool {
-	// should never be of a different type. ok if panics
-	rs := obj.(*v1alpha4.RuleSet) // nolint: forcetypeassert
+	// delete events may carry the last known state wrapped into a tombstone
+	if tombstone, ok := obj.(cache.DeletedFinalStateUnknown); ok {
+		obj = tombstone.Obj
+	}
 
-	return rs.Spec.AuthClassName == p.ac
+	rs, ok := obj.(*v1alpha4.RuleSet)
+
+	return ok && rs.Spec.AuthClassName == p.ac
 }
 
 func (p *provider) addRuleSet(obj any) {
